@@ -132,7 +132,10 @@ trait RVal: ReactResource + PartialEq
 impl RVal for RA { fn new(v: u8) -> Self { RA(v) } fn v(&self) -> u8 { self.0 } fn set(&mut self, v: u8) { self.0 = v; } }
 impl RVal for RB { fn new(v: u8) -> Self { RB(v) } fn v(&self) -> u8 { self.0 } fn set(&mut self, v: u8) { self.0 = v; } }
 
-fn bump(v: u8) -> u8 { (v + 1) % 3 }
+/// New value of a reacting mutable access: the next value of the 3-value domain, tag cleared.
+fn bump(v: u8) -> u8 { ((v & 0x0F) + 1) % 3 }
+/// Equality as the components / resources define it (value nibble only; the tag nibble is ignored).
+fn same(a: u8, b: u8) -> bool { a & 0x0F == b & 0x0F }
 
 /// Read-only and explicitly non-reacting world-level accessors: they agree with each other and trigger nothing.
 fn world_reads<R: RVal>(w: &mut World)
@@ -448,7 +451,7 @@ impl Model
                     let cur = if self.alive[e as usize] { self.comp[e as usize][c as usize] } else { None };
                     match cur
                     {
-                        Some(old) if old != v =>
+                        Some(old) if !same(old, v) =>
                         {
                             exp.cells.push(format!("{name}/different"));
                             self.comp[e as usize][c as usize] = Some(v);
@@ -505,7 +508,7 @@ impl Model
                         Some(e) =>
                         {
                             let old = self.comp[e as usize][c as usize].unwrap();
-                            if old != v
+                            if !same(old, v)
                             {
                                 exp.cells.push(format!("{name}/different"));
                                 self.comp[e as usize][c as usize] = Some(v);
@@ -523,7 +526,7 @@ impl Model
                 Call::ResSetIfNeq(r, v) =>
                 {
                     let old = self.res[r as usize];
-                    if old != v
+                    if !same(old, v)
                     {
                         exp.cells.push(format!("{name}/different"));
                         self.res[r as usize] = v;
@@ -746,7 +749,8 @@ pub fn decode(bytes: &[u8], max_steps: usize, max_calls: usize) -> AccCase
             let e = below(byte(&mut u), n) as u8;
             // component A mostly (single-entity accessors need exactly one owner)
             let c = if byte(&mut u) % 4 == 3 { 1 } else { 0 };
-            let v = byte(&mut u) % 3;
+            // value nibble from the 3-value domain + a tag nibble that equality ignores
+            let v = { let x = byte(&mut u); (x % 3) | (((x / 3) % 4) << 4) };
             let r = k % 2;
             let call = if k % 5 == 4
             {
